@@ -484,59 +484,69 @@ def run_lp_root_forms(rep, rng, thorough):
                         rep.oracle_failures.append(bad)
 
 
-def vector_matrix_solves(rep, rng, n):
-    """real solves of problems written with vector / matrix handles; look-ups through views"""
+def vm_case(data):
+    """one problem written with vector / matrix handles; -> (status, list of failed look-up checks)"""
     from optyx import MatrixVariable, Problem, VectorVariable
 
+    k, sym, tx, tm, method = data["k"], data["sym"], data["tx"], data["tm"], data["method"]
+    x = VectorVariable("x", k, lb=-4.0, ub=4.0)
+    M = MatrixVariable("M", 2, 2, lb=-3.0, ub=3.0, symmetric=sym)
+    obj = sum((x[j] - tx[j]) ** 2 for j in range(k)) + sum((M[a, b] - tm[a][b]) ** 2 for a in range(2) for b in range(2))
+    P = Problem().minimize(obj)
+    if data["constrained"]:
+        P.subject_to(x[0] + x[1] <= 1.0)
+    with warnings.catch_warnings():
+        warnings.simplefilter("ignore")
+        sol = P.solve(method=method)
+    if not sol.values:
+        return sol.status.name, []
+    fails = []
+    views = [("x", x), ("x[1:]", x[1:]), ("x[::-1]", x[::-1]), ("M", M), ("M.T", M.T), ("M[0,:]", M[0, :]),
+             ("M[:,1]", M[:, 1]), ("M.T[0:1,:]", M.T[0:1, :]), ("M.diagonal()", M.diagonal())]
+    for name, h in views:
+        got = sol[h]
+        if isinstance(h, MatrixVariable):
+            ok = got.shape == (h.rows, h.cols) and all(got[a][b] == sol.values[h[a, b].name]
+                                                       for a in range(h.rows) for b in range(h.cols))
+        else:
+            ok = got.shape == (len(h),) and all(got[a] == sol.values[h[a].name] for a in range(len(h)))
+        if not ok:
+            fails.append(name)
+    if not np.array_equal(sol[M.T], sol[M].T):
+        fails.append("M.T vs transpose")
+    if sym and sol[M][0][1] != sol[M][1][0]:
+        fails.append("symmetric entries differ")
+    if list(sol.values) != [v.name for v in P.variables]:
+        fails.append("keys")
+    if sol.status.name == "OPTIMAL" and not data["constrained"]:
+        err = max(abs(sol[x][j] - tx[j]) for j in range(k))
+        if err > 1e-3:
+            fails.append(f"optimum misplaced by {err}")
+    return sol.status.name, fails
+
+
+def vector_matrix_solves(rep, rng, n):
+    """real solves of problems written with vector / matrix handles; look-ups through views"""
     for i in range(n):
         k = rng.randint(2, 4)
-        x = VectorVariable("x", k, lb=-4.0, ub=4.0)
         sym = i % 2 == 0
-        M = MatrixVariable("M", 2, 2, lb=-3.0, ub=3.0, symmetric=sym)
         tx = [rng.dy(-2, 2) for _ in range(k)]
         tm = [[rng.dy(-2, 2) for _ in range(2)] for _ in range(2)]
         if sym:
             tm[1][0] = tm[0][1]
-        obj = sum((x[j] - tx[j]) ** 2 for j in range(k)) + sum((M[a, b] - tm[a][b]) ** 2 for a in range(2) for b in range(2))
-        P = Problem().minimize(obj)
         method = rng.choice(["auto", "SLSQP", "L-BFGS-B", "trust-constr"])
-        if i % 3 == 0:
-            P.subject_to(x[0] + x[1] <= 1.0)
-            if method == "L-BFGS-B":
-                method = "SLSQP"
-        with warnings.catch_warnings():
-            warnings.simplefilter("ignore")
-            sol = P.solve(method=method)
+        constrained = i % 3 == 0
+        if constrained and method == "L-BFGS-B":
+            method = "SLSQP"
+        data = {"k": k, "sym": sym, "tx": tx, "tm": tm, "method": method, "constrained": constrained}
+        status, fails = vm_case(data)
         rep.evaluations += 1
-        rep.histogram["vm-solve:" + sol.status.name] = rep.histogram.get("vm-solve:" + sol.status.name, 0) + 1
-        if not sol.values:
-            continue
-        fails = []
-        views = [("x", x), ("x[1:]", x[1:]), ("x[::-1]", x[::-1]), ("M", M), ("M.T", M.T), ("M[0,:]", M[0, :]),
-                 ("M[:,1]", M[:, 1]), ("M.T[0:1,:]", M.T[0:1, :]), ("M.diagonal()", M.diagonal())]
-        for name, h in views:
-            got = sol[h]
-            if isinstance(h, MatrixVariable):
-                ok = got.shape == (h.rows, h.cols) and all(got[a][b] == sol.values[h[a, b].name]
-                                                           for a in range(h.rows) for b in range(h.cols))
-            else:
-                ok = got.shape == (len(h),) and all(got[a] == sol.values[h[a].name] for a in range(len(h)))
-            if not ok:
-                fails.append(name)
-        if not np.array_equal(sol[M.T], sol[M].T):
-            fails.append("M.T vs transpose")
-        if sym and sol[M][0][1] != sol[M][1][0]:
-            fails.append("symmetric entries differ")
-        if list(sol.values) != [v.name for v in P.variables]:
-            fails.append("keys")
-        if sol.status.name == "OPTIMAL":
-            rep.nontrivial.add(hash(("vm", i, method)))
-            err = max([abs(sol[x][j] - tx[j]) for j in range(k)] + [0.0]) if i % 3 != 0 else 0.0
-            if err > 1e-3:
-                fails.append(f"optimum misplaced by {err}")
+        rep.histogram["vm-solve:" + status] = rep.histogram.get("vm-solve:" + status, 0) + 1
+        if status == "OPTIMAL":
+            rep.nontrivial.add(hash(("vm", str(data))))
         if fails:
             rep.oracle_failures.append({"what": "vector / matrix look-ups inconsistent: " + ", ".join(fails),
-                                        "kind_of_case": "vm", "seed_index": i, "method": method})
+                                        "kind_of_case": "vm", "data": data})
 
 
 def run(ctx) -> core.Report:
@@ -574,8 +584,10 @@ def search(ctx, rep):
     if r2.oracle_failures:
         return r2.oracle_failures[0]
     getitem_cases(r2, rng, recipes(rng, thorough=True))
-    base.run_real_solves(r2, rng, 800, check_consistent)
-    vector_matrix_solves(r2, rng, 100)
+    if r2.oracle_failures:
+        return r2.oracle_failures[0]
+    base.run_real_solves(r2, rng, 250, check_consistent)   # bounded: the whole search stays under ~2 min
+    vector_matrix_solves(r2, rng, 30)
     return r2.oracle_failures[0] if r2.oracle_failures else None
 
 
@@ -625,8 +637,7 @@ def replay(payload) -> bool:
         print("status:", status, bad)
         return bad is None
     if kind == "vm":
-        rep = core.Report()
-        vector_matrix_solves(rep, core.Rng(payload.get("seed", 0)), f["seed_index"] + 1)
-        print(rep.oracle_failures)
-        return not rep.oracle_failures
+        status, fails = vm_case(f["data"])
+        print(status, fails)
+        return not fails
     return True
